@@ -483,6 +483,8 @@ def b_list(eng, st, args, kwargs, node):
     if isinstance(k, KList):
         eng.check_container_guard(st, v, node, False)
         out = eng.copy_list(st, SV(KList(k.elem, ""), v.term) if False else v)
+        _fj = z3.Int("fs_j")
+        eng.assume(st, qforall([_fj], filter_src(out.term, _fj) == filter_src(v.term, _fj), patterns=[filter_src(out.term, _fj)]))
         out = SV(KList(k.elem, ""), out.term) if k.region == "keyseq" else out
         if k.region == "keyseq":
             # move the copy into the plain list heap
@@ -734,6 +736,12 @@ def count_gt_f(row, n, x):
 def rank_in_set(has, x):
     """|{k : has[k] and k < x}| for a finite int set given by its membership row."""
     return uf("rank_in_set", has.sort(), z3.IntSort(), z3.IntSort())(has, x)
+
+
+def filter_src(lst_term, j):
+    """Source index of the j-th element of a list built by a filtered comprehension / filter() (defined by that construction;
+    carried over by list(...) copies; unconstrained for any other list)."""
+    return uf("filter_src", z3.IntSort(), z3.IntSort(), z3.IntSort())(lst_term, j)
 
 
 def idx_query(st, j):
@@ -1070,7 +1078,9 @@ def comprehension(eng, st, node, what, frame=None):
             st.heap[n_] = z3.Store(eng.harr(st, n_), out.term, m)
             eng.assume(st, z3.And(0 <= m, m <= n))
             eng.assume(st, qforall([j], z3.Implies(z3.And(0 <= j, j < m),
-                       z3.And(0 <= srcidx[j], srcidx[j] < n, z3.And(conds2), arr[j] == elt2.term, pos[srcidx[j]] == j)),
+                       z3.And(0 <= srcidx[j], srcidx[j] < n, z3.And(conds2), arr[j] == elt2.term, pos[srcidx[j]] == j,
+                              # the source index as a function of (result list, position): lets contracts name the witness
+                              filter_src(out.term, j) == srcidx[j])),
                        patterns=[arr[j]]))
             if eng.reg.rt_helpers.get("comp_monotone_full"):
                 eng.assume(st, qforall([j, j2], z3.Implies(z3.And(0 <= j, j < j2, j2 < m), srcidx[j] < srcidx[j2]),
